@@ -260,6 +260,7 @@ def indep(g, y, lst, nonempty):
             g.count("indep:" + d)
     if r.random() < 0.25:
         g.emit("wf %s" % y)
+        g.emit("size %s" % y)
 
 
 def agg_group(g, forced_cls=None):
@@ -295,6 +296,7 @@ def agg_group(g, forced_cls=None):
             y = g.fresh(tag + "y")
             g.emit(("%s %s %s" % (fn, y, L)).rstrip())
             g.emit("wf %s" % y)
+            g.emit("size %s" % y)
             g.count("fn:" + fn)
             if r.random() < 0.6:
                 indep(g, y, order, nonempty)
@@ -303,6 +305,7 @@ def agg_group(g, forced_cls=None):
                 y = g.fresh(tag + "y")
                 g.emit(("%s %s %d %s" % (fn, y, w, L)).rstrip())
                 g.emit("wf %s" % y)
+                g.emit("size %s" % y)
                 g.count("fn:" + fn)
                 if r.random() < 0.5:
                     indep(g, y, order, nonempty)
@@ -316,6 +319,7 @@ def agg_group(g, forced_cls=None):
                     g.chunk_ops(x, k)
             g.emit("andany %s %s" % (x, L))
             g.emit("wf %s" % x)
+            g.emit("size %s" % x)
             g.count("fn:andany")
             if r.random() < 0.5:
                 indep(g, x, order, nonempty)
@@ -328,6 +332,7 @@ def agg_group(g, forced_cls=None):
                 order.append(x)
             g.emit("andany %s %s" % (x, " ".join(order)))
             g.emit("wf %s" % x)
+            g.emit("size %s" % x)
             g.count("fn:andany-self")
 
 
@@ -381,6 +386,7 @@ def layers_group(g):
             g.count("workers:%d" % w)
         g.count("fn:" + fn)
         g.emit("wf %s" % y)
+        g.emit("size %s" % y)
         indep(g, y, order, set(names))
 
 
@@ -447,14 +453,17 @@ def cards_group(g):
             g.emit("%s %s %s" % (r.choice(["clone", "clone", "cowclone"]), x, x0))
             g.emit("andany %s %s" % (x, " ".join(lst)))
             g.emit("wf %s" % x)
+            g.emit("size %s" % x)
         elif fn in SEQ:
             y = g.fresh(tag + "y")
             g.emit("%s %s %s" % (fn, y, " ".join(lst)))
             g.emit("wf %s" % y)
+            g.emit("size %s" % y)
         else:
             y = g.fresh(tag + "y")
             g.emit("%s %s %d %s" % (fn, y, r.choice(WORKERS), " ".join(lst)))
             g.emit("wf %s" % y)
+            g.emit("size %s" % y)
 
 
 def _fresh_group(self):
